@@ -454,7 +454,7 @@ META = {
         "design_ref": "DESIGN.md §3 C09",
     },
     "C20": {
-        "text": "Per ObjectKind the layout triple is identical at allocation, size() and dealloc (F6); sweeper closures count exactly retained objects (F10); size accounting dominates every heap push and only allocators/sweepers touch the heaps; post-collection bytes_allocated is the sum of both sweeps and next_gc derives from it; temp roots balance on every path (a leaked root retains garbage forever); intern table evicts exactly the unmarked.",
+        "text": "Per ObjectKind the layout triple is identical at allocation, size() and dealloc (F6); sweeper closures count exactly retained objects (F10) and every collection unmarks each of the three heaps on every path (F10.sweep-cover); size accounting dominates every heap push and only allocators/sweepers touch the heaps; post-collection bytes_allocated is the sum of both sweeps and next_gc derives from it; temp roots balance on every path (a leaked root retains garbage forever); intern table evicts exactly the unmarked.",
         "note": "Decides structural accounting clauses, not the quantitative boundedness claim.",
         "technique": "static analysis: generic-argument cross-check of layout calls, sibling-closure comparison, def-use, path-sensitive balance on MIR",
         "design_ref": "DESIGN.md §3 C20",
